@@ -34,7 +34,8 @@ RX1ChanOK(e) ==
        /\ e.rx1fq[k].code = 0 /\ e.rx1fq[k].res = e.snap.dl[code + 1].f
   /\ (FixedPlan(r) => \A k \in 1..ndl : e.snap.dl[k].f = [q |-> DownlinkQ(r, k - 1), r |-> 0])
 RX1NoPanic(e) == \A k \in 1..Len(e.rx1dr) : e.rx1dr[k][3] # -2
-RX1Closed(e) == \A k \in 1..Len(e.rx1dr) : e.rx1dr[k][3] >= 0 => e.rx1dr[k][3] \in DownSet(e)
+\* codes: >= 0 a result, -1 an error, -2 a panic, < -100 a NEGATIVE result that was handed out without error (-100 + result)
+RX1Closed(e) == \A k \in 1..Len(e.rx1dr) : (e.rx1dr[k][3] >= 0 \/ e.rx1dr[k][3] < -100) => e.rx1dr[k][3] \in DownSet(e)
 RX1Invalid(e) == \A k \in 1..Len(e.rx1dr) :
    LET dr == e.rx1dr[k][1]  off == e.rx1dr[k][2]  code == e.rx1dr[k][3] IN
    (dr < 0 \/ off < 0 \/ dr \notin Defined(e) \/ (dr \in UpSet(e) /\ off > MaxRX1Offset(e.bname))) => code = -1
